@@ -812,3 +812,36 @@ def implies(g, f):
             continue
         return False
     return True
+
+
+def subst_formula(f, pmap):
+    """Rewrite a formula of a callee into the caller's vocabulary. pmap: 'p:name' -> caller path tuple (or None).
+    Path tuples get their parameter prefix replaced, string keys their textual occurrences."""
+    def sub_path(p):
+        if p and p[0] in pmap and pmap[p[0]] is not None:
+            return tuple(pmap[p[0]]) + tuple(p[1:])
+        return p
+
+    def sub_str(s_):
+        out = s_
+        for k, v in sorted(pmap.items(), key=lambda kv: -len(kv[0])):
+            if v is not None:
+                out = out.replace(k, path_str(tuple(v)))
+        return out
+    h = f[0]
+    if h in ("and", "or"):
+        parts = [subst_formula(x, pmap) for x in f[1:]]
+        return f_and(*parts) if h == "and" else f_or(*parts)
+    if h == "not":
+        return f_not(subst_formula(f[1], pmap))
+    if h in ("present", "nonempty"):
+        return (h, sub_path(f[1]))
+    if h == "nz":
+        return ("nz", sub_str(f[1]) if isinstance(f[1], str) else f[1])
+    if h == "bit":
+        return ("bit", sub_path(f[1]) if isinstance(f[1], tuple) else sub_str(f[1]), f[2], f[3])
+    if h == "cmp":
+        return ("cmp", f[1], sub_str(f[2]), sub_str(f[3]))
+    if h == "call":
+        return ("call", sub_str(f[1]))
+    return f
